@@ -17,12 +17,12 @@ S = {"qA": "quantized_bits(4,0,1)", "bA": "quantized_bits(6,2,1)", "qB": "ternar
      "aS": "quantized_relu(3,1)", "aDr": "quantized_relu(6,2)", "aDl": "quantized_relu(6,2,negative_slope=0.125)",
      "qN": "quantized_bits(8,3,1)", "qR": "quantized_bits(5,1,1)", "qS": "quantized_bits(7,2,1)", "qP": "quantized_bits(9,0,1)"}
 ABITS = 4
-RNN = ("SimpleRNN", "LSTM", "GRU")
+RNN = ("SimpleRNN", "LSTM", "GRU", "Bidirectional")
 SEP = ("SeparableConv1D", "SeparableConv2D")
 POOL = ("AveragePooling2D", "GlobalAveragePooling2D")
 IMG = ["Conv2D", "DepthwiseConv2D", "SeparableConv2D", "AveragePooling2D", "GlobalAveragePooling2D", "Dense", "ReLU", "Activation",
        "BatchNormalization"]
-SEQ = ["Conv1D", "SeparableConv1D", "SimpleRNN", "LSTM", "GRU", "Dense", "ReLU", "Activation"]
+SEQ = ["Conv1D", "SeparableConv1D", "SimpleRNN", "LSTM", "GRU", "Bidirectional", "Dense", "ReLU", "Activation"]
 QN = lambda k: "QActivation" if k in ("Activation", "ReLU", "LeakyReLU") else "Q" + k
 
 
@@ -66,6 +66,9 @@ def make(l):
     return L.SeparableConv1D(3, 2, padding="same", use_bias=b, activation=a, name=n)
   if k == "GRU":     # reset_after=True needs array_ops.unstack, which this TensorFlow no longer has (environment, not QKeras)
     return L.GRU(3, use_bias=b, return_sequences=True, reset_after=False, name=n)
+  if k == "Bidirectional":      # mirrored by default, or with an explicitly given backward layer (name suffix "x")
+    bwd = L.LSTM(3, use_bias=b, return_sequences=True, go_backwards=True) if l.get("explicit_backward") else None
+    return L.Bidirectional(L.LSTM(3, use_bias=b, return_sequences=True), backward_layer=bwd, name=n)
   if k in RNN:
     return getattr(L, k)(3, use_bias=b, return_sequences=True, name=n)
   if k == "AveragePooling2D":
@@ -84,6 +87,10 @@ def make(l):
 def build(model, fam, topo):
   i = L.Input((4, 4, 2) if fam == "img" else (5, 3))
   lays = [make(l) for l in model]
+  if topo == "sequential":          # a Sequential model: no InputLayer among model.layers
+    seq = tf.keras.Sequential(lays)
+    seq.build((None,) + tuple(i.shape[1:]))
+    return seq
   if topo == "chain" or len(model) == 1:
     x = i
     for lay in lays:
@@ -163,6 +170,21 @@ def project(qm, model):
       r["pq"] = sym(cls, "pointwise_quantizer", lay.pointwise_quantizer_internal, ("qA", "qB"))
       r["bq"] = sym(cls, "bias_quantizer", lay.bias_quantizer_internal, ("bA",))
       r["act"] = act_sym(lay.activation, l["act"])
+    elif cls == "QBidirectional":
+      halves = []
+      for inner in (lay.forward_layer, lay.backward_layer):
+        ic = inner.__class__.__name__
+        if not ic.startswith("Q"):
+          halves.append(("none", "none", "none", "none", "keep:tanh"))
+          continue
+        halves.append((sym(ic, "kernel_quantizer", inner.kernel_quantizer_internal, ("qA", "qB")),
+                       sym(ic, "recurrent_quantizer", inner.recurrent_quantizer_internal, ("qR",)),
+                       sym(ic, "bias_quantizer", inner.bias_quantizer_internal, ("bA",)),
+                       sym(ic, "state_quantizer", inner.state_quantizer_internal, ("qS",)), act_sym(inner.cell.activation, l["act"])))
+      if halves[0] == halves[1]:
+        r["kq"], r["rq"], r["bq"], r["sq"], r["act"] = halves[0]
+      else:
+        r["kq"] = "other:directions_differ " + str(halves)[:60]
     elif cls in ("QSimpleRNN", "QLSTM", "QGRU"):
       r["kq"] = sym(cls, "kernel_quantizer", lay.kernel_quantizer_internal, ("qA", "qB"))
       r["rq"] = sym(cls, "recurrent_quantizer", lay.recurrent_quantizer_internal, ("qR",))
@@ -195,7 +217,7 @@ def main():
     tries += 1
     fam = rnd.choice(["img", "seq"])
     ln = rnd.choice([1, 2, 2, 3, 3])
-    topo = rnd.choice(["chain", "chain", "fork_cat", "fork_add"])
+    topo = rnd.choice(["chain", "sequential", "fork_cat", "fork_add"])
     model = []
     for j in range(ln):
       k = rnd.choice(IMG if fam == "img" else SEQ)
@@ -203,6 +225,8 @@ def main():
                                      else (rnd.choice(["relu", "tanh", "softmax"]) if k == "Activation" else "linear"))
       bias = rnd.randint(0, 1) if k in ("Dense", "Conv1D", "Conv2D", "DepthwiseConv2D") + SEP + RNN else 0
       model.append({"kind": k, "bias": bias, "act": act, "name": "n%d" % (j + 1)})
+      if k == "Bidirectional" and rnd.random() < 0.5:
+        model[-1]["explicit_backward"] = 1
     # rank-changing layer only as the very last layer of a chain
     if any(l["kind"] == "GlobalAveragePooling2D" for l in model[:-1]) or (topo != "chain" and model[-1]["kind"] == "GlobalAveragePooling2D"
                                                                           and len(model) > 1):
@@ -231,7 +255,7 @@ def main():
     json0 = km.to_json()
     w0 = [w.copy() for w in km.get_weights()]
     transfer = rnd.random() < 0.7
-    ev = {"fam": fam, "topo_kind": topo if len(model) > 1 else "chain", "model": model, "dict": d, "exc": 0, "res": [], "topo": 1, "src": 1,
+    ev = {"fam": fam, "topo_kind": topo if (len(model) > 1 or topo == "sequential") else "chain", "model": model, "dict": d, "exc": 0, "res": [], "topo": 1, "src": 1,
           "dct": 1, "wts": 1, "transfer": int(transfer)}
     try:
       qm = qutils.model_quantize(km, qcfg, ABITS, custom_objects=co, transfer_weights=transfer)
